@@ -41,6 +41,7 @@ type opT struct {
 	Reenter  docT     `json:"reenter"` // call: while the call runs, the function "id" calls the same parsed function on this document
 	DocRef   int      `json:"doc_ref"` // call: use (and keep) the document OBJECT of slot doc_ref instead of building a fresh one (0 = fresh)
 	Rename   []string `json:"rename"`  // call with doc_ref: before the call, rename this member of the kept root object in place (hex from, hex to)
+	AllFail  bool     `json:"allfail"` // parse/retrieve without cfg_ref: register every name of filters/aggs with a function that always fails
 }
 
 type caseT struct {
